@@ -18,6 +18,15 @@ Definition dec_ops (v : val) : option (list pop) :=
   | _ => None
   end.
 
+(* encoding of typed operations (inverse of dec_op) *)
+Definition enc_op (o : pop) : val :=
+  match o with
+  | PNew id => VL [VZ 1; VZ id]
+  | PClose id => VL [VZ 2; VZ id]
+  | PAdj id dep w e => VL [VZ 3; VZ id; VZ dep; VZ w; VZ (if e then 1 else 0)]
+  end.
+Definition enc_ops (ops : list pop) : val := VL (map enc_op ops).
+
 Definition enc_row (r : Z * Z * Z * Z) : val :=
   let '(x, p, w, o) := r in VL [VZ x; VZ p; VZ w; VZ o].
 Definition enc_table (t : list (Z * Z * Z * Z)) : val := VL (map enc_row t).
